@@ -7,6 +7,7 @@ import Driver.Disabled
 import Driver.Rounds
 import Driver.Des
 import Driver.Context
+import Driver.CtxKey
 import Driver.Blowfish
 import Driver.Scrypt
 /-
@@ -24,6 +25,7 @@ def dispatch (line : String) : String :=
   | "rounds" :: rest => Driver.Rounds.handle rest
   | "des" :: rest => Driver.Des.handle rest
   | "ctx" :: rest => Driver.Context.handle rest
+  | "ctxkey" :: rest => Driver.CtxKey.handle rest
   | "bf" :: rest => Driver.Blowfish.handle rest
   | "scrypt" :: rest => Driver.Scrypt.handle rest
   | _ => Driver.bad
